@@ -323,17 +323,23 @@ class Queue(Greenlet):
         """
         now = time.time()
         envelopes = self._run_policies(envelope)
-        ids = self._pool_imap('store', self.store.write, envelopes,
-                              repeat(now))
+        ids = self._pool_imap('store', self._write, envelopes, repeat(now))
         results = list(zip(envelopes, ids))
         for env, id in results:
             if not isinstance(id, BaseException):
-                if self.relay and id not in self.active_ids:
-                    self.active_ids.add(id)
+                if self.relay:
                     self._pool_spawn('relay', self._attempt, id, env, 0)
             elif not isinstance(id, QueueError):
                 raise id  # Re-raise exceptions that are not QueueError.
         return results
+
+    def _write(self, envelope, timestamp):
+        id = self.store.write(envelope, timestamp)
+        if self.relay:
+            # The first attempt belongs to enqueue(): claim the id before any
+            # other greenlet can learn about it from the storage backend.
+            self.active_ids.add(id)
+        return id
 
     def _load_all(self):
         for entry in self.store.load():
